@@ -54,7 +54,6 @@ def run(ctx, rep):
     rep.rule('R-C10-1', 'every field sequence the writer can emit for a record is accepted by the reader (kind, order, conditionality, repetition)', 30)
     rep.rule('R-C10-1h', 'header strings and record tags of the writer are accepted by the reader', 3)
     rep.rule('R-C10-2', 'member pairing: a field written from member X is restored into member X', 12)
-    rep.rule('R-C10-3', 'primitive pairs agree: 7-bit groups, terminator 0x80, shift 7; LE32 byte order', 3)
     rg, rh, rf, wg, wh, wf, pruned = codec_grammars(P)
     rep.analysed(rf, wf)
     for h in wh:
@@ -150,33 +149,7 @@ def run(ctx, rep):
         rep.check(ok, 'R-C10-2i', '%s: internal bit %s -> wire bit %s -> info_make arg %s -> internal bit %s' % (gname, getters[gname], wb, pos, ib), wf.file, '', function='state_read_content', construct='info flag %s' % gname)
     for t in pruned:
         rep.notes.append('writer switch at %s treated as exhaustive (link kind invariant checked)' % t.loc())
-    # primitives
-    for put, get, W in (('sputb32', 'sgetb32', 32), ('sputb64', 'sgetb64', 64)):
-        pf, gf_ = P.fn(put), P.fn(get)
-        rep.analysed(pf, gf_)
-        pc, gc = const_ops(pf), const_ops(gf_)
-        ok = pc.get('and') == {0x7f} and pc.get('lshr') == {7} and pc.get('or') == {0x80} and {0x80, 0x7f} <= gc.get('and', set()) and 7 in gc.get('add', set())
-        rep.check(ok, 'R-C10-3', '%s/%s' % (put, get), pf.file, 'put: and %s lshr %s or %s ; get: and %s add %s' % (pc.get('and'), pc.get('lshr'), pc.get('or'), gc.get('and'), gc.get('add')), function=put, construct='varint constants')
-    pf, gf_ = P.fn('sputble32'), P.fn('sgetble32')
-    rep.analysed(pf, gf_)
-    # put: buf[k] = (value >> 8k) & 0xff ; get: value = OR buf[k] << 8k
-    putmap = {}
-    for i in pf.all_insts():
-        if i.op == 'store' and 'buf[' in pf.expr(i.ops[1]):
-            e = pf.expr(i.ops[0])
-            k = int(pf.expr(i.ops[1]).split('buf[')[1].split(']')[0])
-            import re as _re
-            m = _re.search(r'>>(\d+)', e)
-            putmap[k] = int(m.group(1)) if m else 0
-    getmap = {}
-    for i in gf_.all_insts():
-        if i.op == 'shl':
-            e = gf_.expr(i.ops[0])
-            if 'buf[' in e:
-                getmap[int(e.split('buf[')[1].split(']')[0])] = gf_.const_of(i.ops[1])
-        if i.op == 'load' and gf_.expr(['i', i.id]).startswith('buf[0]'):
-            getmap.setdefault(0, 0)
-    rep.check(putmap == {0: 0, 1: 8, 2: 16, 3: 24} and getmap == putmap, 'R-C10-3', 'sputble32/sgetble32 byte order', pf.file, 'put %s get %s' % (putmap, getmap), function='sputble32', construct='byte order')
+    # integer codecs: decided semantically by the interpreted round trip R-C10-3r (no constant-shape rule)
     # which disks and blocks get saved is decided through searches in the extent trees (fs_is_empty, fs_par2block...)
     from .. import comparators
     comparators.tree_rules(P, rep, 'R-C10-5')
